@@ -19,8 +19,8 @@ type inhSite struct {
 
 type staticIdx struct {
 	callers  map[*Func][]inhSite // root function -> its static call sites in the module
-	callees  map[*Func][]*Func    // root function -> root functions it calls statically
-	valueRef map[*Func]bool       // function referenced other than as the callee of a call
+	callees  map[*Func][]*Func   // root function -> root functions it calls statically
+	valueRef map[*Func]bool      // function referenced other than as the callee of a call
 }
 
 var staticIdxCache = map[*Prog]*staticIdx{}
